@@ -92,9 +92,11 @@ CLAIMED = {
          "spec/Regex.tla: Brzozowski derivatives and an independent direct-membership semantics, checked by TLC to agree on every "
          "expression of the bounded domain; TLC computes for every (expression, string) the longest viable prefix and acceptance; "
          "cpppo.regex and regex_bytes machines built from the emitted text are fed every string whole / symbol-at-a-time / at "
-         "sampled splits and must consume, store and accept exactly that (NonTerminal otherwise).",
-         "5/C11", "exhaustive for expressions of size <= 2 (+ cat/alt of atoms; size 3 in thorough) over a 5-symbol alphabet with 2- and "
-         "3-octet symbols and strings of length <= 3 (4); two known findings on byte machines (F10 exact, F11 by class)",
+         "sampled splits and must consume, store and accept exactly that (NonTerminal otherwise).  spec/RegexBytes.tla models the "
+         "translation into octet machines as coded; TLC emits its outcome too: a run the property rejects is a known finding only if it is "
+         "precisely that outcome, and construction refusals must be the predicted ones.",
+         "5/C11", "exhaustive for expressions of size <= 2 (+ cat/alt of atoms; size 3 in thorough) over a 7-symbol alphabet with 2- and "
+         "3-octet symbols, two of them sharing lead octets with named ones, and strings of length <= 3 (4); two known findings on byte machines (F10, F11: both exact)",
          "TLA+ derivative oracle evaluated by TLC over all small expressions x strings; machines built by cpppo replayed against it"),
  "C20": ("model_checking",
          "spec/Tnet.tla defines Dump and Parse over a value ADT (arbitrary-precision integers, floats as text, bytes, UTF-8 text, "
